@@ -22,8 +22,10 @@ HASH_UW = ["main.%d:14" % i for i in range(8)] + \
 
 def rt_uw(k, s, corr, nm=4, vm=8):
     n = corr + s + 1
-    return ["main.%d:%d" % (i, n) for i in range(12)] + \
-        ["ref_attr_ok.0:%d" % (nm + 1), "ref_byte.0:%d" % (s + 1), "ref_le.0:%d" % (s + 1),
+    return ["main.%d:%d" % (i, n) for i in range(16)] + \
+        ["ext2fs_file_open.0:%d" % (k + 1), "ext2fs_file_read.0:%d" % (vm + 1), "ext2fs_file_read.1:%d" % (k + 1),
+         "ref_ea_entry_hash.0:%d" % (nm + 1),
+         "ref_attr_ok.0:%d" % (nm + 1), "ref_byte.0:%d" % (s + 1), "ref_le.0:%d" % (s + 1),
          "vf_model_hash.0:%d" % (nm + 1), "vf_model_hash.1:%d" % (vm + 5),
          "ref_region_check.0:%d" % (vm + 2), "ref_region_check.1:%d" % (vm + 2), "ref_region_check.2:%d" % (vm + 2),
          "ref_region_check.3:%d" % (vm + 2), "ref_region_check.4:%d" % (vm + 2), "ref_region_check.5:%d" % (vm + 2),
@@ -41,6 +43,11 @@ def rt_cfgs():
         c.append({"K": 3, "LAYOUT": lay, "S": 80, "VM": 4, "_unwindset": rt_uw(3, 80, 32 * lay, vm=4),
                   "_tier": "thorough" if lay else "quick"})
         c.append({"K": 3, "LAYOUT": lay, "S": 96, "_unwindset": rt_uw(3, 96, 32 * lay), "_tier": "thorough"})
+        # attributes whose value lives in an EA inode (bit i of EAMASK)
+        c.append({"K": 1, "LAYOUT": lay, "S": 32, "EAMASK": 1, "_unwindset": rt_uw(1, 32, 32 * lay)})
+        c.append({"K": 2, "LAYOUT": lay, "S": 64, "EAMASK": 2 - lay, "_unwindset": rt_uw(2, 64, 32 * lay)})
+        c.append({"K": 2, "LAYOUT": lay, "S": 64, "EAMASK": 1 + lay, "_unwindset": rt_uw(2, 64, 32 * lay), "_tier": "thorough"})
+        c.append({"K": 2, "LAYOUT": lay, "S": 64, "EAMASK": 3, "_unwindset": rt_uw(2, 64, 32 * lay), "_tier": "thorough"})
     return c
 
 def up_uw(n, nm=3, vm=8):
